@@ -1,5 +1,5 @@
 ---- MODULE CkptCasesMC ----
 EXTENDS CkptCases
-AllClasses == {"count", "slidingcount", "part_count", "part_slidingcount", "tumbling", "sliding", "session", "seq2", "seq3ref", "kleene", "kleene_self",
+AllClasses == {"count", "slidingcount", "part_count", "part_slidingcount", "tumbling", "sliding", "session", "seq2", "seq3ref", "kleene", "kleene_self", "kleene_long",
                "neg", "join", "distinct_limit", "wm_tumbling", "part_seq"}
 ====
